@@ -5,7 +5,7 @@
    validation rests on. *)
 From Avo Require Import Base.Prelude.
 From stdpp Require Import gmap.
-From Avo Require Import Base.MaskSet Model.IR Model.RegFile Model.Liveness Model.Alloc Model.Cleanup Model.Pipeline Model.Sem Proofs.LivenessProofs Proofs.AllocProofs Proofs.SimProofs Proofs.SimLink Proofs.SimValidator Proofs.LivenessTerm Proofs.AllocLoop Proofs.AllocCorrect Proofs.AllocSim.
+From Avo Require Import Base.MaskSet Model.IR Model.RegFile Model.Liveness Model.Alloc Model.Cleanup Model.Pipeline Model.Sem Proofs.LivenessProofs Proofs.AllocProofs Proofs.SimProofs Proofs.SimLink Proofs.SimValidator Proofs.LivenessTerm Proofs.AllocLoop Proofs.AllocCorrect Proofs.AllocSim Proofs.BindProofs.
 Open Scope N_scope.
 
 (* the liveness used by the allocator is exactly path liveness (C02), in particular it is complete:
@@ -78,6 +78,21 @@ Theorem model_regalloc_preserves_semantics :
        /\ (forall l, LIn lvs j1 l -> R1 l = R1' (rename (lookup_default al) l))).
 Proof. exact model_allocation_preserves_semantics. Qed.
 Print Assumptions model_regalloc_preserves_semantics.
+
+(* BindRegisters realises that renaming: for every instruction whose registers are all bound (what
+   VerifyAllocation checks), the reads and writes of the bound instruction, as storage locations
+   (register ID, byte class), are the images under the allocation of the original ones, with the same
+   successors — so the renamed program of the theorem above IS the bound code.  The table facts
+   (same family and index => same ID, ID fields = table fields) are discharged on the translated
+   register file on every run (Tab.regfile_bind_ok_tab). *)
+Theorem bound_code_is_renamed_program : forall rf is liveouts al,
+  AllocCorrect.regfile_ok rf = true -> regfile_kinds_ok rf = true -> regfile_bind_ok rf = true ->
+  allocate_registers rf is liveouts = OK al ->
+  forall uses defs succs, Forall (bound rf al) uses -> Forall (bound rf al) defs ->
+  to_minstr (List.map (lookup_register_default rf al) uses) (List.map (lookup_register_default rf al) defs) succs
+  = rename_instr (lookup_default al) (to_minstr uses defs succs).
+Proof. exact bound_code_is_renamed_lemma. Qed.
+Print Assumptions bound_code_is_renamed_program.
 
 (* the colouring loop alone: the two ends of every interference edge get different physical
    registers, for every interference graph *)
